@@ -1,11 +1,20 @@
 #!/bin/bash
-# Runs every seeded change (sub-agent rounds in seeded-src/ or seeded/, own mutants) against ALL checks, two streams in parallel.
+# Runs every seeded change against the frozen checks, four streams in parallel (longest first):
+#   own mutants and the two latest sub-agent rounds against ALL 20 checks,
+#   the earlier rounds against the target property's family of checks (flow / batch / store; see run_agents.py --group).
 # Results: /tmp/final/res_r<N>.json, /tmp/final/own.json
 export GOFLAGS=-mod=mod GOPROXY=off GOSUMDB=off GOTOOLCHAIN=local
 cd "$(dirname "$0")/.."
 mkdir -p /tmp/final
-export VERIF_JOBS=${VERIF_JOBS:-10}
-( for r in 7 5 3 1; do RESULTS_OUT=/tmp/final/res_r$r.json ./selftest/run_agents.py seeded-src/r$r --all > /tmp/final/all_r$r.log 2>&1; done ) &
-( for r in 6 4 2; do RESULTS_OUT=/tmp/final/res_r$r.json ./selftest/run_agents.py seeded-src/r$r --all > /tmp/final/all_r$r.log 2>&1; done; RESULTS_OUT=/tmp/final/own.json ./selftest/run_own.py --all > /tmp/final/all_own.log 2>&1 ) &
-wait
+export VERIF_JOBS=${VERIF_JOBS:-6}
+one() {
+  case "$1" in
+    own) RESULTS_OUT=/tmp/final/own.json ./selftest/run_own.py --all > /tmp/final/all_own.log 2>&1 ;;
+    9|10) RESULTS_OUT=/tmp/final/res_r$1.json ./selftest/run_agents.py seeded-src/r$1 --all > /tmp/final/all_r$1.log 2>&1 ;;
+    *) RESULTS_OUT=/tmp/final/res_r$1.json ./selftest/run_agents.py seeded-src/r$1 --group > /tmp/final/all_r$1.log 2>&1 ;;
+  esac
+  echo "done $1 $(date +%H:%M)"
+}
+export -f one
+printf '%s\n' own 10 9 8 7 6 5 4 3 2 1 | xargs -P 4 -I{} bash -c 'one {}'
 echo MATRIX-DONE
